@@ -69,12 +69,13 @@ func TestVerifC09(t *testing.T) {
 	defer rep.Write()
 	quick := vh.Quick()
 	type sel struct{ root, path string }
-	sels := []sel{{vBundledRoot, "testpic_2s"}, {vBundledRoot, "testpic_8s"}}
+	// testpic_alt_seg_dur_stl has VoD segments of several fragments (chunk boundaries that do not coincide with them)
+	sels := []sel{{vBundledRoot, "testpic_2s"}, {vBundledRoot, "testpic_8s"}, {vBundledRoot, "testpic_alt_seg_dur_stl"}}
 	if g := vGenRoot(); g != "" {
 		sels = append(sels, sel{g, "g_3x1500ms"}, sel{g, "g_1001"})
 	}
 	if !quick {
-		sels = append(sels, sel{vBundledRoot, "testpic_6s"}, sel{vBundledRoot, "testpic_alt_seg_dur_stl"})
+		sels = append(sels, sel{vBundledRoot, "testpic_6s"})
 	}
 	job := 0
 	for _, s := range sels {
